@@ -5,6 +5,7 @@ import SerfModel.Gen.InternalQueries
 C08 checker.  The harness drives a real single Serf node; ops:
 
   `cfg <N> <name> <tags>`     create the node: QueryBuffer = N, node name, tags `k:v,k:v` | `-`  → `ok`
+  `tags <tags>`                 `SetTags` on the running node (same node, same buffers)          → `ok`
   `q <lt> <id> <flags> <name> F <raw>=<class>… R <expr>:<value>:<res>…`
         a query message through `NotifyMsg`.  `<raw>` are the filter bytes sent;
         `<class>` is what Go's msgpack decoder makes of them (`E` empty entry,
@@ -157,6 +158,11 @@ def step (s : St) (op : List String) (impl : String) : LineOut St :=
       if N == 0 || name == "-" then { state := s, model := some "bad-op" } else
       { state := { s with buf := some (Buf.init N), n := N, cfg := { name := hx name, tags := tg } }, model := some "ok" }
     | _, _ => { state := s, model := some "bad-op" }
+  | ["tags", tags], some _ =>
+    -- `SetTags` on the SAME node: later queries are judged against the tags now in effect
+    match parseTags tags with
+    | some tg => { state := { s with cfg := { s.cfg with tags := tg } }, model := some "ok" }
+    | none => { state := s, model := some "bad-op" }
   | "q" :: lt :: id :: flags :: name :: rest, some b =>
     match lt.toNat?, id.toNat?, flags.toNat?, splitFR rest with
     | some t, some qid, some fl, some (ftoks, rtoks) =>
